@@ -33,10 +33,10 @@ BUDGET = {
     "C08": {"quick": {"malloc": 100000}, "thorough": {"malloc": 4000000}},
     "C09": {"quick": {"malloc": 100000}, "thorough": {"malloc": 12000000}},
     "C10": {"quick": {"malloc": 120000, "noinfo": 60000}, "thorough": {"malloc": 4000000, "noinfo": 2000000}},
-    "C11": {"quick": {"malloc": 200000}, "thorough": {"malloc": 16000000}},
-    "C12": {"quick": {"malloc": 200000}, "thorough": {"malloc": 8000000}},
+    "C11": {"quick": {"malloc": 160000, "user": 60000}, "thorough": {"malloc": 14000000, "user": 4000000}},
+    "C12": {"quick": {"malloc": 160000, "user": 60000}, "thorough": {"malloc": 7000000, "user": 2000000}},
     "C17": {"quick": {"malloc": 100000}, "thorough": {"malloc": 8000000}},
-    "C18": {"quick": {"malloc": 100000, "heap": 100000}, "thorough": {"malloc": 3000000, "heap": 3000000}},
+    "C18": {"quick": {"malloc": 100000, "heap": 100000, "user": 40000}, "thorough": {"malloc": 3000000, "heap": 3000000, "user": 1000000}},
     "C20": {"quick": {"heap": 200000}, "thorough": {"heap": 6000000}},
 }
 TIME_CAP = {"quick": 60, "thorough": 1500}     # seconds per worker batch; only guards against a slow machine
